@@ -34,11 +34,13 @@ def LinksOK (root : P) (es : List Entry) : Prop :=
   ∀ l1 e l2, es = l1 ++ e :: l2 → e.kind = .link →
     ∃ t ∈ l1, (t.kind = .reg ∨ t.kind = .link) ∧ t.path root = cleanJoin root e.link
 
-/-- the state after the entries `done` have been extracted into an empty destination -/
+/-- the state after the entries `done` have been extracted into an empty (or missing) destination -/
 structure Inv (root : P) (mask : Nat) (fs' : FS) (done : List Entry) : Prop where
   wf : WF fs'
   ino : InoOK fs'
-  rootdir : ∃ m, fs'.get root = some (.dir m)
+  rootdir : fs'.get root = none ∨ ∃ m, fs'.get root = some (.dir m)
+  anc : ∀ j, 1 ≤ j → j < root.length → fs'.get (root.take j) = none ∨ ∃ m, fs'.get (root.take j) = some (.dir m)
+  below : ∀ e ∈ done, Below root (e.path root)
   present : ∀ e ∈ done, ∃ n, fs'.get (e.path root) = some n ∧ NodeOf root mask fs' e n
   exact : ∀ q, Below root q → ∀ n, fs'.get q = some n → ∃ e ∈ done, q <+: e.path root
   implied : ∀ l1 e l2, done = l1 ++ e :: l2 → ∀ q, Below root q → q <+: e.path root → q ≠ e.path root →
@@ -87,11 +89,15 @@ theorem Inv.ready {root : P} {mask : Nat} {fs' : FS} {done : List Entry} (hinv :
         obtain ⟨c, t, ep⟩ := hb
         have e1 : (e.path root).take j = root.take j := by
           rw [ep, List.take_append_of_le_length hj]
-        rw [e1]
-        obtain ⟨m0, hm0⟩ := hinv.rootdir
+        rw [e1] at hg ⊢
         by_cases hj' : j = root.length
-        · rw [hj', List.take_length]; exact ⟨m0, hm0⟩
-        · exact wf_prefix_dir fs' hinv.wf root _ hm0 j h1 (by omega)
+        · rw [hj', List.take_length] at hg ⊢
+          rcases hinv.rootdir with h0 | h0
+          · rw [h0] at hg; cases hg
+          · exact h0
+        · rcases hinv.anc j h1 (by omega) with h0 | h0
+          · rw [h0] at hg; cases hg
+          · exact h0
       · -- strictly below the root: it is (a prefix of) an earlier entry
         have hq : Below root ((e.path root).take j) := by
           obtain ⟨c, t, ep⟩ := hb
@@ -137,8 +143,23 @@ theorem Inv.step {root : P} {mask : Nat} {fs' : FS} {done : List Entry} (hinv : 
     intro d hd
     obtain ⟨n, h1, _⟩ := hinv.present d hd
     rw [hmono _ _ h1, h1]
-  refine ⟨hwf2, hsys.inoOK hinv.ino, ?_, ?_, ?_, ?_, ?_⟩
-  · obtain ⟨m, hm⟩ := hinv.rootdir; exact ⟨m, hmono _ _ hm⟩
+  have hnd : ∀ q, q ≠ e.path root → (fs'.get q = none ∨ ∃ m, fs'.get q = some (.dir m)) →
+      (r.1.get q = none ∨ ∃ m, r.1.get q = some (.dir m)) := by
+    intro q hq h
+    rcases hst.change q hq with h1 | ⟨_, h2, _⟩
+    · rw [h1]; exact h
+    · exact Or.inr ⟨_, h2⟩
+  refine ⟨hwf2, hsys.inoOK hinv.ino, hnd root hb.ne.symm hinv.rootdir, ?_, ?_, ?_, ?_, ?_, ?_⟩
+  · intro j h1 h2
+    refine hnd _ ?_ (hinv.anc j h1 h2)
+    intro e'
+    have := congrArg List.length e'
+    have hl := below_len hb
+    rw [List.length_take] at this; omega
+  · intro d hd
+    rcases List.mem_append.mp hd with hd | hd
+    · exact hinv.below d hd
+    · simp at hd; subst hd; exact hb
   · intro d hd
     rcases List.mem_append.mp hd with hd | hd
     · obtain ⟨n, h1, h2⟩ := hinv.present d hd
@@ -189,9 +210,11 @@ theorem Inv.step {root : P} {mask : Nat} {fs' : FS} {done : List Entry} (hinv : 
       omega
 
 theorem Inv.init (root : P) (mask : Nat) (fs : FS) (hw : WF fs) (hio : InoOK fs)
-    (hdst : ∃ m, fs.get root = some (.dir m)) (hempty : ∀ q, Below root q → fs.get q = none) :
+    (hdst : fs.get root = none ∨ ∃ m, fs.get root = some (.dir m))
+    (hanc : ∀ j, 1 ≤ j → j < root.length → fs.get (root.take j) = none ∨ ∃ m, fs.get (root.take j) = some (.dir m))
+    (hempty : ∀ q, Below root q → fs.get q = none) :
     Inv root mask fs [] := by
-  refine ⟨hw, hio, hdst, fun e he => (by cases he), ?_, ?_, List.Pairwise.nil⟩
+  refine ⟨hw, hio, hdst, hanc, fun e he => (by cases he), fun e he => (by cases he), ?_, ?_, List.Pairwise.nil⟩
   · intro q hq n hg; rw [hempty q hq] at hg; cases hg
   · intro l1 e l2 h; simp at h
 
